@@ -111,6 +111,11 @@ def User.saveState (u : User) : Except Err (User × List Rat) := do
   let u' ← u.update
   pure (u', u'.timestamps)
 
+/-- `load_state(path)`: the buffer loads its own content (not an `add`), the timestamp deque is replaced by the pickled one
+(re-bounded to this user's queue size); the collector - and whatever waits in it - is not touched. -/
+def User.loadState (u : User) (ts : List Rat) : User :=
+  { u with timestamps := ts.foldl (dqAppend u.maxLen) [] }
+
 /-- `__len__`: `len(self._buffer)` -/
 def User.len (u : User) : Nat := u.adds.length
 
